@@ -38,6 +38,8 @@ Definition check_crash (c : crash_case) : N :=
      (pebble syncs a long record in pieces and rotates logs) either *)
   let agree_model := if (c_j c <? c_first_wal c) || (c_first_wal c =? 0) then rb && c_eq_before c
                      else if c_syncs c <=? c_j c then ra && c_eq_after c else rb || ra in
-  let agree_spec := c_reopen_ok c && consistent_b (c_recovered c) && (c_eq_before c || c_eq_after c) && (rb || ra) && c_next_ok c
+  (* first start: an empty data directory is a legitimate "before" *)
+  let empty_start := match c_recovered c, c_before c with [], [] => true | _, _ => false end in
+  let agree_spec := c_reopen_ok c && (empty_start || consistent_b (c_recovered c)) && (c_eq_before c || c_eq_after c) && (rb || ra) && c_next_ok c
                     && match c_restore c with Some (h, id) => restore_safe_b (c_recovered c) h id | None => true end in
   code agree_model agree_spec.
